@@ -18,6 +18,9 @@ NewNodes ==
   \cup {Mk(id, t, <<Nd(a), Nd(a), Nd(a), NoneArg, <<"c", "0.0">>, <<"c", "True">>>>, <<>>) : t \in AttnTargets, a \in T}
   \cup {Mk(id, t, <<Nd(a), Nd(a), Nd(a)>>, <<<<"attn_mask", Nd(3)>>, <<"is_causal", <<"c", "False">>>>>>) : t \in AttnTargets, a \in T}
   \cup {Mk(id, "U.scaled_dot_product_attention", <<Nd(a), Nd(a), Nd(a)>>, <<<<"mult", <<"c", "2.0">>>>>>) : a \in T}
+  \cup {Mk(id, t, <<>>, <<<<"input", Nd(a)>>, <<"weight", Nd(2)>>>>) : t \in LinearTargets, a \in T}                                \* linear(input=x, weight=w)
+  \cup {Mk(id, t, <<Nd(a)>>, <<<<"weight", Nd(2)>>, <<"bias", Nd(3)>>>>) : t \in LinearTargets, a \in T}                           \* linear(x, weight=w, bias=b)
+  \cup {Mk(id, t, <<>>, <<<<"query", Nd(a)>>, <<"key", Nd(a)>>, <<"value", Nd(a)>>>>) : t \in AttnTargets, a \in T}                 \* sdpa(query=, key=, value=)
   \cup {Mk(id, "F.gelu", <<Nd(a)>>, <<>>) : a \in T}
   \cup {Mk(id, "op.add", <<Nd(a), Nd(c)>>, <<>>) : a \in T, c \in T}
 AddOp == phase = "build" /\ Len(g) - 3 < MaxOps /\ \E n \in NewNodes : g' = Append(g, n) /\ UNCHANGED phase
